@@ -135,7 +135,9 @@ def rand_args(rng, h):
     return a
 
 
-def execute(h, a, kind, xs, form, other=None):
+def execute(h, a, kind, xs, form, other=None, before=None):
+    """before = (h0, a0): another helper on the same column listed first in the same aggregate() call; what a helper
+    returns is a function of its group's elements alone, whatever was computed before it in the call."""
     import dataiter as di
     recs = []
     old = di.USE_NUMBA
@@ -155,9 +157,15 @@ def execute(h, a, kind, xs, form, other=None):
             order = sorted(range(len(rows)), key=lambda i: (sum(1 for j in range(i) if rows[j][0] == rows[i][0]), rows[i][0]))
             rows = [rows[i] for i in order]
             base = [{"h": h, "a": a, "kind": kind, "xs": g, "form": form, "obs": {"t": "alien"}, "err": ""} for g in groups]
+            if before:
+                for rec in base:
+                    rec["form"], rec["before"] = "group-after-" + before[0], list(before)
             try:
                 d = di.DataFrame(g=di.Vector([r[0] for r in rows], int), x=concrete(kind, [r[1] for r in rows]))
-                out = d.group_by("g").aggregate(y=helper_for_column(di, h, a))
+                if before:
+                    out = d.group_by("g").aggregate(w=helper_for_column(di, before[0], before[1]), y=helper_for_column(di, h, a))
+                else:
+                    out = d.group_by("g").aggregate(y=helper_for_column(di, h, a))
                 gs = np.asarray(out["g"]).tolist()
                 ys = out["y"]
                 present = {}
@@ -211,10 +219,32 @@ def run(ctx):
                     k = rng.randint(0, 2)
                     other = [list(rng.choice(seqs)) for _ in range(k)]
                     other = [o for o in other if supports(kind, o)]
-                for rec in execute(h, a, kind, xs, form, other):
+                before = None
+                if form == "group" and rng.random() < 0.35:
+                    h0 = rng.choice([x for x in HELPERS if x in ACCEPTS[kind]])
+                    before = (h0, rand_args(rng, h0))
+                for rec in execute(h, a, kind, xs, form, other, before):
                     records.append(rec)
                     count[h] = count.get(h, 0) + 1
                     ctx.count((h, json.dumps(a, sort_keys=True), kind, tuple(rec["xs"]), form), len(rec["xs"]) >= 2)
+    # two helpers in one aggregate() call on groups of four unsorted elements (long enough for in-place partitioning
+    # or sorting by the first helper to move something): the second one is judged as if it were alone
+    for _ in range(700 if quick else 8000):
+        kind = rng.choice(KINDS)
+        alphabet = [NAV] + list(range(-2, top - 1))
+        xs = [rng.choice(alphabet) for _ in range(4)]
+        if not supports(kind, xs):
+            continue
+        ok = [x for x in HELPERS if x in ACCEPTS[kind]]
+        # half of the draws: a helper that sorts / partitions / selects first, a position-sensitive one second
+        h = rng.choice([x for x in ok if x in ("first", "last", "nth", "mode")] if rng.random() < 0.5 else ok)
+        h0 = rng.choice([x for x in ok if x in ("median", "quantile", "count_unique", "mode", "min", "max")] if rng.random() < 0.5 else ok)
+        other = [[rng.choice(alphabet) for _ in range(rng.randint(1, 4))]]
+        other = [o for o in other if supports(kind, o)]
+        for rec in execute(h, rand_args(rng, h), kind, xs, "group", other, (h0, rand_args(rng, h0))):
+            records.append(rec)
+            count[h] = count.get(h, 0) + 1
+            ctx.count((h, h0, kind, tuple(rec["xs"]), "after"), True)
     bad = ctx.validate("AggTrace", records)
     for i, clause in bad:
         ctx.fail(clause, sig_of(records[i]), {"rec": records[i]})
@@ -233,7 +263,8 @@ def run(ctx):
 def replay(ctx, rp):
     for case in rp["cases"]:
         r0 = case["rec"]
-        recs = execute(r0["h"], r0["a"], r0["kind"], r0["xs"], "vector" if r0["form"] == "vector" else "group")
+        recs = execute(r0["h"], r0["a"], r0["kind"], r0["xs"], "vector" if r0["form"] == "vector" else "group",
+                       before=tuple(r0["before"]) if r0.get("before") else None)
         bad = ctx.validate("AggTrace", recs)
         for i, clause in bad:
             ctx.fail(clause, sig_of(recs[i]), {"rec": recs[i]})
